@@ -505,6 +505,51 @@ class FnTaint:
                     return True
         return False
 
+    def bound_may_wrap(self, other, cblock):
+        """The bound side is (a local initialised with) `x - c` for an unsigned x and a constant c > 0, and
+        no dominating test establishes x >= c (x > 0, x != 0 ...): for x < c the bound wraps to a huge value
+        (or, narrowed to IndexT, to the type's maximum) and the comparison rejects nothing."""
+        t = other
+        while isinstance(t, dict) and t.get("k") in ("icast", "cast", "copy", "paren") and "v" not in t:
+            t = t.get("e")
+        trees = [other]
+        if isinstance(t, dict) and t.get("k") == "var" and "d" in t and "p" not in t:
+            inits = [ev.get("e") for b, ev in self.fn.events()
+                     if ev["k"] == "decl" and (ev.get("var") or {}).get("d") == t["d"] and isinstance(ev.get("e"), dict)]
+            assigned = any(n.get("k") == "bin" and n.get("op", "").endswith("=") and n["op"] not in ("==", "!=", "<=", ">=")
+                           and isinstance(n.get("l"), dict) and n["l"].get("k") == "var" and n["l"].get("d") == t["d"]
+                           for b, kind, tree, e in self.fn.roots() if tree is not None for n in walk(tree))
+            if len(inits) == 1 and not assigned:
+                trees = inits
+        for tree in trees:
+            for n in walk(tree):
+                if n.get("k") != "bin" or n.get("op") != "-" or "v" in n:
+                    continue
+                c = self.const_of(n.get("r"))
+                if c is None or c <= 0:
+                    continue
+                x = n.get("l")
+                while isinstance(x, dict) and x.get("k") in ("icast", "cast", "copy", "paren") and "v" not in x:
+                    x = x.get("e")
+                if not isinstance(x, dict) or x.get("is") is not False:
+                    continue          # signed arithmetic: x - c is merely negative and rejects everything
+                safe = False
+                for cb, outcome, cond in dominating_edges(self.fn, cblock):
+                    if isinstance(outcome, tuple):
+                        continue
+                    for l2, op2, r2 in self.atoms(cond, outcome):
+                        for side, oth, o in ((l2, r2, op2), (r2, l2, FLIP[op2])):
+                            if side is None or oth is None or not _tree_eq(side, x):
+                                continue
+                            k2 = self.const_of(oth)
+                            if k2 is None:
+                                continue
+                            if (o == ">" and k2 >= c - 1) or (o == ">=" and k2 >= c) or (o == "!=" and k2 == 0 and c == 1):
+                                safe = True
+                if not safe:
+                    return True
+        return False
+
     def const_of(self, t):
         while isinstance(t, dict) and t.get("k") in ("icast", "cast", "copy") and "v" not in t:
             t = t.get("e")
@@ -709,6 +754,8 @@ class FnTaint:
         op_place = self.place_of(other)
         if op_place is not None and op_place[0] == "v" and op_place in self.counters:
             return None          # a loop counter is not an existing count
+        if self.bound_may_wrap(other, cblock):
+            return None          # `n - 1` of an unsigned n that may be 0 is 2^w - 1: no bound at all
         # every stream label on the other side must itself be bounded there
         sub_kinds = tuple(sorted(set(kinds) | {"G1", "G3", "G3T", "DECL"}))
         for l2 in labs:
